@@ -27,23 +27,28 @@ def do_mean(pixels, z_pixels, num_zones, nodata, z_nodata, out_dtype=np.float32)
     """
     t, nr, nc = pixels.shape
     result = np.zeros((t, num_zones, 2), dtype=out_dtype)
+    # running sum and count per zone, in double precision whatever the output dtype:
+    # a float32 accumulator stops counting at 2**24 and loses the sum long before
+    acc = np.zeros((num_zones, 2), dtype=np.float64)
 
     # 0 mean
     # 1 valids
 
     for tix in range(t):
+        acc[:, :] = 0
         for rw in range(nr):
             for cl in range(nc):
                 pix = pixels[tix, rw, cl]
                 z_idx = z_pixels[rw, cl]
                 if (pix != nodata) and (z_idx != z_nodata):
-                    result[tix, z_idx, 0] += pix
-                    result[tix, z_idx, 1] += 1
+                    acc[z_idx, 0] += pix
+                    acc[z_idx, 1] += 1
 
         for idx in range(result.shape[1]):
-            if result[tix, idx, 1] > 0:
-                result[tix, idx, 0] = result[tix, idx, 0] / result[tix, idx, 1]
+            if acc[idx, 1] > 0:
+                result[tix, idx, 0] = acc[idx, 0] / acc[idx, 1]
             else:
                 result[tix, idx, 0] = np.nan
+            result[tix, idx, 1] = acc[idx, 1]
 
     return result
